@@ -1072,6 +1072,7 @@ func (fc *FnCtx) applyAnchored(st *State, c *Clause, i int, kind, name string, o
 		for j, a := range fc.anchorArgs {
 			extra[fmt.Sprintf("arg%d", j)] = a
 		}
+		extra["nargs"] = intLit(int64(len(fc.anchorArgs))) // variadic arguments are counted individually
 	}
 	switch c.Kind {
 	case "assert":
